@@ -17,7 +17,19 @@ func VerifC19Pager() {
 	zzverif.Assume(w >= 1 && w <= 5)
 	h := int(zzverif.Byte("h"))
 	zzverif.Assume(h >= 1 && h <= 4)
+	// the text arrives as one segment or split into two at a free grapheme boundary
 	m := &Model{Segments: []vaxis.Segment{{Text: text}}}
+	if chars := vaxis.Characters(text); len(chars) > 1 && zzverif.Bool("twoSegments") {
+		k := 1 + zzverif.Choose("split", 3)
+		if k >= len(chars) {
+			k = len(chars) - 1
+		}
+		first := ""
+		for _, c := range chars[:k] {
+			first += c.Grapheme
+		}
+		m.Segments = []vaxis.Segment{{Text: first}, {Text: text[len(first):], Style: vaxis.Style{Attribute: vaxis.AttrBold}}}
+	}
 	m.Offset = int(int8(zzverif.Byte("offset")))
 	vx := vaxis.VerifBare(5, 4)
 	win := vx.Window().New(0, 0, w, h)
